@@ -13,6 +13,7 @@ func init() {
 	register("C03", propInfo{
 		Explanation: "Static decision of the structural clauses of C03 (inbound decoding, rejection, no panic): the accept/reject/dispatch decision of readLoop, handleControl, reader, msgReader.read, readFrameHeader and parseClosePayload is extracted from the SSA as a total decision table over all values of the header fields, role and negotiation state (finite predicate abstraction, regions cut at every constant the code compares with) and compared row by row with an oracle table transcribed from RFC 6455 §5.2/§5.5/§7.4 and RFC 7692 §6; every read of frame bytes is a full read; peer-controlled integers reach slice bounds only under a dominating check. No library code is executed.",
 		Decides: []string{
+			"C03.echo.bytesErr (= C02.close.bytesErr): whatever parseClosePayload accepts can be marshalled for the echo",
 			"C03.loop: readLoop rejects rsv2/rsv3, rsv1 unless negotiated and opcode∈{1,2}, masked==client (wrong masking for the role), unknown opcodes; dispatches 8/9/10 to handleControl; delivers 0/1/2",
 			"C03.ctl: handleControl rejects payloadLength∉[0,125] and !fin with 1002 before reading; payload is read into readControlBuf[:payloadLength]",
 			"C03.seq: reader requires previous message finished and opcode≠continuation; msgReader.read requires continuation; violations answered with 1002",
@@ -319,7 +320,9 @@ func c03seq(p *Program, r *Report, rule string) {
 		ops := opcodeCandidates(fn)
 		p.runTable(r, tableSpec{
 			Rule: rule + ".reader", Fn: fn,
-			Atoms: []Atom{boolAtom("msgReader.fin"), intAtom("header.opcode", []int64{ops[0], 0, 1, 2})},
+			// payloadLength: what is left of the frame being read (0, 1 byte, more): a final frame whose payload was not
+			// read to its end is not a finished message (F35)
+			Atoms: []Atom{boolAtom("msgReader.fin"), intAtom("msgReader.payloadLength", []int64{0, 1, 290, 1 << 40}), intAtom("header.opcode", []int64{ops[0], 0, 1, 2})},
 			Decide: func(v Valuation) func(string, AV) (bool, bool) {
 				return func(key string, cond AV) (bool, bool) {
 					if strings.HasPrefix(key, "(call:mu.lock@") || strings.HasPrefix(key, "(call:Conn.readLoop@") {
@@ -354,7 +357,7 @@ func c03seq(p *Program, r *Report, rule string) {
 				return retErr(pa)
 			},
 			Oracle: func(v Valuation) []string {
-				if !v.Bool("msgReader.fin") {
+				if !v.Bool("msgReader.fin") || v.Int("msgReader.payloadLength") > 0 {
 					return []string{"REJECT-BEFORE-READ"}
 				}
 				if v.Int("header.opcode") == 0 {
@@ -362,7 +365,7 @@ func c03seq(p *Program, r *Report, rule string) {
 				}
 				return []string{"DELIVER"}
 			},
-			What: "a new message may start only after the previous one finished and not with a continuation frame (RFC 6455 §5.4)",
+			What: "a new message may start only after the previous one finished - its final frame arrived and was read in full - and not with a continuation frame (RFC 6455 §5.4)",
 		})
 	}
 	// msgReader.read: at a frame boundary inside a message only a continuation frame is accepted
